@@ -24,7 +24,8 @@ CONSTANTS
   BugNoTerminate = FALSE
   BugKeepType = FALSE
   BugNoStatus = FALSE
-INVARIANTS TourDone Legal ReadExact WriteExact KindRight HealthyOk FaultIsError FailedInitForgets
+  BugPreCount = FALSE
+INVARIANTS TourDone Legal ReadExact WriteExact NowhereElse KindRight HealthyOk FaultIsError FailedInitForgets
 CHECK_DEADLOCK FALSE
 '''
 
@@ -62,13 +63,13 @@ def to_scenario(sid, kind, crc, tour, rng):
                 break
             op, b, n = e[1], e[2], e[3]
             blk = nblocks if b >= 3 else base + b
-            ops.append(sdgen.O(op, blk=blk, n=max(n, 1)) if op in ('read', 'write') else sdgen.O(op))
-            cur = dict(op=op, cmds=[], res=None)
+            ops.append(sdgen.O(op, blk=blk, n=n) if op in ('read', 'write') else sdgen.O(op))
+            cur = dict(op=op, cmds=[], res=None, blk=blk, delivered=0)
             last_data = None
         elif k == 'cmd':
             ncmd += 1
             cur['cmds'].append(e[1])
-            if e[1] == 12 and last_data is not None and last_data not in ('notoken', 'spi'):
+            if e[1] == 12 and cur['op'] == 'read' and last_data not in ('notoken', 'spi') and cur['blk'] + cur['delivered'] < nblocks:
                 ndata += 1          # the card had the next block ready when the stop command arrived
             if e[2] != 'none':
                 misb.append(dict(when='cmd', nth=ncmd, what=e[2]))
@@ -77,6 +78,7 @@ def to_scenario(sid, kind, crc, tour, rng):
                     cur['unpredictable'] = True
         elif k == 'data':
             ndata += 1
+            cur['delivered'] += 1
             last_data = e[1]
             if e[1] != 'ok':
                 misb.append(dict(when='data', nth=ndata, what=e[1], arg=rng.randrange(4096)))
@@ -100,6 +102,9 @@ def to_scenario(sid, kind, crc, tour, rng):
     timing = dict(resp=rng.randrange(9), tok=rng.choice([0, 1, 2, 8, 50]), busy=rng.choice([0, 1, 3, 40, 700]), acmd41=a41 if a41 <= 5 else 1000000)
     if rng.random() < 0.3:
         timing['random'] = True
+    for x in expect:
+        x.pop('blk', None)
+        x.pop('delivered', None)
     return dict(id=sid, kind=kind, crc=crc, csd=csd, timing=timing, seed=rng.randrange(1 << 30), misb=misb, ops=ops, retries=2, expect=expect[:len(ops)])
 
 def scenarios(tier, seed):
